@@ -108,12 +108,12 @@ def UnsafeFee.validate (c : UnsafeFee) (p : ProtoCfg) : R FeeCfg := do
 
 /-- `addess_hash(typ, key)` = SHA-256(SHA-256(typ) ++ key) -/
 def addressHash (typ : String) (key : List UInt8) : List UInt8 :=
-  Sha256.hash (Sha256.hash typ.toUTF8.toList ++ key)
+  Sha256.hash (Sha256.hash (Sha256.bytesOf typ) ++ key)
 
 /-- `derive_intermediate_sender` -/
 def deriveIntermediateSender (channel sender pref : String) : Option String :=
   let senderStr := channel ++ "/" ++ sender
-  let h := addressHash SENDER_PREFIX senderStr.toUTF8.toList
+  let h := addressHash SENDER_PREFIX (Sha256.bytesOf senderStr)
   Bech32.encode pref (Bech32.toBase32 h)
 
 /-- `Api::addr_validate` of the protocol chain (modelled; see DESIGN.md §8): a lower-case
